@@ -115,7 +115,9 @@ PartForces(sd, part, i) ==
     LET w == IF part = "flange" THEN sd.bf ELSE sd.bb
     IN << <<RMul(R(1,2), A_), RMul(R(i, i + 1), w), R(i,1), R(-2,1), R(3,1)>>, <<RMul(R(3,4), A_), w, RZero, R(1,2), R(-i,1)>> >>
 StiffReqs(bd) ==
-    { [q |-> "size"], [q |-> "place"],
+    { [q |-> "size"], [q |-> "place"] }
+    \cup { [q |-> "b1dmass", k |-> i] : i \in { j \in 1..Len(bd.stiffs) : bd.stiffs[j].kind = "b1d" /\ ~bd.stiffs[j].base } }
+    \cup {
       [q |-> "fext", skin |-> SkinForces(bd.skin), forces |-> Fn([i \in 1..Len(bd.stiffs) |->
             [base |-> IF bd.stiffs[i].kind = "t2d" THEN PartForces(bd.stiffs[i], "base", i) ELSE <<>>,
              flange |-> IF OwnSize(bd.stiffs[i]) > 0 THEN PartForces(bd.stiffs[i], "flange", i + 2) ELSE <<>>]])] }
